@@ -310,13 +310,15 @@ structure ZInv (s : St) : Prop where
   freedIff : s.freed = true ↔ (s.cfg.selfdel = true ∧ s.b.delivered = 1)
   nfreeEq : s.nfree = b2n s.freed
   noChild : s.lastC = none ∧ s.issuer = none
+  pcKinds : ∀ t, s.b.pc t = .idle ∨ s.b.pc t = .starting ∨ s.b.pc t = .fin
+  armed0 : s.b.armedTo = 0
   noUaf : s.uaf = false
 
 theorem zinv_init (c : Cfg) (hv : c.vector = true) : ZInv (init c 0) := by
   constructor <;> simp [init, WhenAll.init, b2n, hv]
 
 theorem step_zinv (s s' : St) (e : Ev) (hz : ZInv s) (h : step s e = some s') : ZInv s' := by
-  obtain ⟨z0,z1,z2,z3,z4,z5,z6,z7,z8,z9⟩ := hz
+  obtain ⟨z0,z1,z2,z3,z4,z5,z6,z7,z8,z10,z11,z9⟩ := hz
   simp only [step, z0, z1, if_true] at h
   cases e <;> simp only [step0] at h <;> (try (simp at h; done)) <;>
   ( split at h
@@ -328,5 +330,45 @@ theorem step_zinv (s s' : St) (e : Ev) (hz : ZInv s) (h : step s e = some s') : 
 theorem zinv_of_accepted {c : Cfg} (hv : c.vector = true) {log : List Ev} {s : St}
     (h : runLog step (init c 0) log = some s) : ZInv s :=
   inv_of_runLog ZInv (fun s e s' => step_zinv s s' e) (zinv_init c hv) h
+
+
+/-- the configuration never changes -/
+theorem cfg_of_accepted {c : Cfg} {n : Nat} {log : List Ev} {s : St}
+    (h : runLog step (init c n) log = some s) : s.cfg = c := by
+  refine inv_of_runLog (fun s => s.cfg = c) ?_ rfl h
+  intro s e s' hc hs
+  simp only [step] at hs
+  split at hs
+  · split at hs
+    · cases e <;> simp only [step0] at hs <;> (try (simp at hs; done)) <;>
+      ( split at hs
+        · simp only [Option.some.injEq] at hs; subst hs; exact hc
+        · simp at hs)
+    · simp at hs
+  · split at hs
+    · simp at hs
+    · simp only [Option.some.injEq] at hs; subst hs; exact hc
+
+/-- Once set, `lastC` never changes (the counter is zero: no further decrement is accepted). -/
+theorem lastC_stable (s s' : St) (e : Ev) (hl : LInv s) (h : step s e = some s') (k : Nat)
+    (hk : s.lastC = some k) : s'.lastC = some k := by
+  have hz : s.b.remaining = 0 := hl.lastSome.mp (by rw [hk]; simp)
+  simp only [step, hl.npos, if_false] at h
+  split at h
+  · simp at h
+  · simp only [Option.some.injEq] at h
+    subst h
+    cases e <;> simp only [lastAfter, hk]
+    rw [hz]; simp [hk]
+
+theorem n_of_reach {c : Cfg} {n : Nat} {s : St} (hr : ∃ log, runLog step (init c n) log = some s)
+    (hn : 0 < n) : s.b.n = n := by
+  obtain ⟨log, hl⟩ := hr
+  exact WhenAll.n_of_accepted (runLog_proj log _ s (by simp [init, WhenAll.init]; omega) hl)
+
+theorem full_of_reach {c : Cfg} {n : Nat} {s : St} (hr : ∃ log, runLog step (init c n) log = some s)
+    (hn : 0 < n) : Full s := by
+  obtain ⟨log, hl⟩ := hr
+  exact full_of_accepted (by omega) hl
 
 end PikaVerif.WhenAllLife
